@@ -127,6 +127,22 @@ Theorem C13_bad_frame_rejected : forall dec r n cap L,
 Proof. exact c13_bad_frame_rejected. Qed.
 Print Assumptions C13_bad_frame_rejected.
 
+(* good_frame_delivered (single-call form of the FIFO refinement, no assumption on the AEAD): a
+   complete frame whose ciphertext (at most 65535 bytes) decrypts under the current nonce to a
+   plaintext that fits the payload buffer is consumed in the same call: exactly the first
+   min(remaining, |p|) bytes of p are handed out, the rest of p stays buffered (and is handed out
+   next by C13_poll_read_bounded), the nonce advances by exactly one, the transport is not touched *)
+Theorem C13_good_frame_delivered : forall dec r n cap L p,
+  buf_len (r_payload r) = 0 -> frame_complete (r_frame r) = Ok (Some L) ->
+  length (firstn L (skipn LENF (buf_as_slice (r_frame r)))) <= MAXMSG ->
+  dec (length (r_got r)) (firstn L (skipn LENF (buf_as_slice (r_frame r)))) = Some p ->
+  length p <= buf_size (r_payload r) ->
+  exists r', poll_read dec r n cap = Ok (r', n, PReady (firstn (Nat.min cap (length p)) p)) /\
+    length (r_got r') = S (length (r_got r)) /\
+    b_data (r_payload r') = skipn (Nat.min cap (length p)) p.
+Proof. exact c13_good_frame_delivered. Qed.
+Print Assumptions C13_good_frame_delivered.
+
 (* the constants of stream.rs are an instance *)
 Theorem C13_real_constants : pc_ok MAX_PAYLOAD_LEN /\ FC MAX_PAYLOAD_LEN = MAX_PAYLOAD_LEN + 18.
 Proof. split; [exact real_pc_ok|exact (FC_val MAX_PAYLOAD_LEN (proj1 real_pc_ok))]. Qed.
